@@ -474,6 +474,7 @@ func runC11(c *Ctx) {
 	// ================= R4 =================
 	c11PerTableState(c)
 	c11MethodArgMask(c)
+	c11FieldOffsets(c)
 }
 
 // C11.R4: every Parser field that is written while a table is parsed is
@@ -706,4 +707,111 @@ func c11MethodArgMask(c *Ctx) {
 	if n < 2 {
 		c.fail("C11.R5", "method-argcount-mask aml", fmt.Sprintf("only %d site(s) that read a method's argument count found (rule shape lost)", n))
 	}
+}
+
+// C11.R6: the bit offset of a field unit is the sum of the widths of the
+// elements before it in the field list. In parseFieldElements the value stored
+// into fieldElement.offset is a variable of the element loop that starts at 0
+// and is only ever increased by the package length just parsed (reserved
+// elements and named fields); nothing else assigns it, and the width stored is
+// that same package length.
+func c11FieldOffsets(c *Ctx) {
+	m := c.K
+	const aml = "device/acpi/aml"
+	c.floor("C11.R6", 2)
+	fn := m.lookupMethod(aml, "Parser", "parseFieldElements")
+	offF, widthF := m.fieldOf(aml, "fieldElement", "offset"), m.fieldOf(aml, "fieldElement", "width")
+	pkgLenFn := m.lookupMethod(aml, "Parser", "parsePkgLength")
+	if fn == nil || offF == nil || widthF == nil || pkgLenFn == nil {
+		c.unresolved("C11.R6", "Parser.parseFieldElements / fieldElement.offset / width / Parser.parsePkgLength")
+		return
+	}
+	g := newIG(m, fn, nil)
+	isPkgLen := func(v ssa.Value) bool { _, ok := m.resultOf(stripConv(v), pkgLenFn, 0); return ok }
+	var offV, widthV ssa.Value
+	var offN int
+	for n, in := range g.Ins {
+		st, ok := in.(*ssa.Store)
+		if !ok {
+			continue
+		}
+		if _, f, ok := fieldOfAddr(st.Addr); ok {
+			switch f {
+			case offF:
+				offV, offN = st.Val, n
+			case widthF:
+				widthV = st.Val
+			}
+		}
+	}
+	key := "field-offset-accumulates " + m.fnName(fn)
+	if offV == nil || widthV == nil {
+		c.fail("C11.R6", key, "no store of fieldElement.offset / width found (rule shape lost)", m.pos(fn.Pos()))
+		return
+	}
+	wv := stripConv(widthV)
+	if phi, ok := wv.(*ssa.Phi); ok {
+		if r := g.phiAt(phi, offN); r != nil {
+			wv = r
+		}
+	}
+	c.check(isPkgLen(wv), "C11.R6", "field-width "+m.fnName(fn), "fieldElement.width = the package length parsed for this field",
+		"the width of a field unit is not the package length parsed for it", g.posOf(offN))
+	phi, ok := stripConv(offV).(*ssa.Phi)
+	bad := ""
+	if !ok {
+		bad = "the offset stored is not a running variable of the element loop"
+	} else {
+		h, body := loopOf(phi.Block())
+		if h != phi.Block() {
+			bad = "the offset stored is not carried by the element loop"
+		} else {
+			seen := map[ssa.Value]bool{}
+			var visit func(v ssa.Value, depth int)
+			visit = func(v ssa.Value, depth int) {
+				v = stripConv(v)
+				if v == ssa.Value(phi) || seen[v] || bad != "" {
+					return
+				}
+				seen[v] = true
+				if depth > 8 {
+					bad = "the offset variable is updated through too many merges to follow"
+					return
+				}
+				switch t := v.(type) {
+				case *ssa.Phi:
+					for _, e := range t.Edges {
+						visit(e, depth+1)
+					}
+				case *ssa.BinOp:
+					if t.Op == token.ADD && (isPkgLen(t.Y) || isPkgLen(t.X)) {
+						other := t.X
+						if isPkgLen(t.X) && !isPkgLen(t.Y) {
+							other = t.Y
+						}
+						visit(other, depth+1)
+						return
+					}
+					bad = "the running offset is changed by something other than adding a parsed package length: " + describe(v)
+				default:
+					bad = "the running offset is assigned " + describe(v) + " inside the element loop (offsets of later field units no longer add up)"
+				}
+			}
+			nInit := 0
+			for i, e := range phi.Edges {
+				if !body[h.Preds[i]] {
+					nInit++
+					if k, ok := constUint64(e); !ok || k != 0 {
+						bad = "the running offset does not start at 0"
+					}
+					continue
+				}
+				visit(e, 0)
+			}
+			if nInit != 1 && bad == "" {
+				bad = "the running offset has no single start value"
+			}
+		}
+	}
+	c.check(bad == "", "C11.R6", key, "fieldElement.offset is a loop variable that starts at 0 and only grows by parsed package lengths", bad, g.posOf(offN))
 }
